@@ -78,6 +78,9 @@ type Obligation struct {
 }
 
 type VC struct {
+	viaDispatch int                    // > 0 while the implementers of an interface method are applied (never inlined)
+	inlining    map[*ssa.Function]bool // functions whose bodies are being executed in place
+	inlined     map[string]bool
 	curHeap     *Heap // the state before the instruction being executed (panic exits are judged in it)
 	inPanicExit bool
 	blockReach  map[*ssa.BasicBlock]string // path condition of each block executed so far (merged blocks)
@@ -149,7 +152,7 @@ func newVC(p *Program, fn *ssa.Function) *VC {
 		edge: map[[2]*ssa.BasicBlock]string{}, loopHdr: map[*ssa.BasicBlock]int{}, loopBody: map[*ssa.BasicBlock]map[*ssa.BasicBlock]bool{},
 		hdrHeap: map[*ssa.BasicBlock]*Heap{}, hdrPhi: map[*ssa.BasicBlock]map[*ssa.Phi]Term{},
 		params: map[string]Term{}, counters: map[string]int{}, nonNil: map[string][]*ssa.BasicBlock{},
-		assumptions: map[string]bool{}, calleesNoContract: map[string]bool{}, trusted: map[string]bool{}}
+		assumptions: map[string]bool{}, calleesNoContract: map[string]bool{}, trusted: map[string]bool{}, inlined: map[string]bool{}}
 	return vc
 }
 
